@@ -20,6 +20,7 @@ def run(run, replay=None):
     stats = {"proper_vs_normal": 0, "foreign_vs_normal": 0, "numeral_vs_normal": 0, "heads_checked": 0, "score_pairs": 0}
     for r in results:
         c = r.case
+        K.history_oracles(r, fails, stats)
         anc_only = {(rd, sf, sp) for d, rd, sf, sp in c.words if d.startswith("anc")} - \
                    {(rd, sf, sp) for d, rd, sf, sp in c.words if d.startswith("std")}
         for store, learned in ((r.base, False), (r.learned, True)):
